@@ -424,3 +424,24 @@ pub fn run_views(ops: &[DbOp], keys: &[Vec<u8>], moves: &str) -> Vec<View> {
     }
     views
 }
+
+
+// ---- write batch codec (src/batch.rs) ------------------------------------------------------------
+/// Result of `Batch::try_from(bytes)`: Err(text) or (starting sequence number, [(op, key, value)]).
+pub fn batch_decode(bytes: &[u8]) -> Result<(u64, Vec<(u8, Vec<u8>, Option<Vec<u8>>)>), String> {
+    match crate::Batch::try_from(bytes) {
+        Err(e) => Err(format!("{}", e)),
+        Ok(b) => Ok((
+            b.get_starting_seq_number().unwrap_or(0),
+            b.iter()
+                .map(|e| (if e.get_operation() == crate::Operation::Put { 1u8 } else { 0u8 }, e.get_key().to_vec(), e.get_value().cloned()))
+                .collect(),
+        )),
+    }
+}
+/// `Vec::<u8>::from(&batch)` for a batch built through the public API.
+pub fn batch_encode(seq: u64, ops: &[(Vec<u8>, Option<Vec<u8>>)]) -> Vec<u8> {
+    let mut b = make_batch(ops);
+    b.set_starting_seq_number(seq);
+    Vec::<u8>::from(&b)
+}
